@@ -36,7 +36,8 @@ def poison(inst, schema, types, rnd, log):
             t = types[int(a["ty"][1:])]
             k = t["k"]
             if k == "dec":
-                v = decimal.Decimal(rnd.choice(DECS))
+                v = rnd.choice([decimal.Decimal(rnd.choice(DECS))] * 3 +
+                               [float("inf"), float("-inf"), float("nan"), 1e22, 0.1, -0.0, 5, 10 ** 30, True, "1e5", "NaN", " 1.5"])
             elif k in ("str", "nag"):
                 v = rnd.choice(STRS)
                 if t["len"] != -1 and len(v) > t["len"]:
@@ -47,7 +48,14 @@ def poison(inst, schema, types, rnd, log):
                 v = datetime.datetime(rnd.choice([1900, 1999, 2024, 2200]), rnd.randrange(1, 13), rnd.randrange(1, 29), rnd.randrange(24),
                                       rnd.randrange(60), rnd.randrange(60), rnd.choice([0, 499, 500, 999999]), tzinfo=tz)
             elif k == "int":
-                v = rnd.choice([True, False, 0, -1])
+                v = rnd.choice([True, False, 0, -1, 1.0, 1.5, "0x10", " 7", decimal.Decimal("2"), "1_0"])
+            elif k == "oneof":
+                tok = "".join(map(chr, rnd.choice(t["valid"])))
+                v = rnd.choice([tok.lower(), tok.capitalize(), tok + " ", " " + tok, tok.swapcase(), tok[:-1] or "X", tok + "\n"])
+            elif k == "bool":
+                v = rnd.choice(["y", "n", "Yes", "true", 1, 0, "1", " Y"])
+            elif k == "time":
+                v = rnd.choice(["1234", "250000", datetime.time(1, 2, 3, 999999, tzinfo=datetime.timezone(datetime.timedelta(minutes=-30)))])
             else:
                 continue
             try:
